@@ -244,6 +244,18 @@ def run(ctx):
     }
     for k, (src, qs) in multi.items():
         sources.append((k, src, None, qs, None))
+    # a two-file project: parameters whose values come from call sites in ANOTHER module (dynamic parameter search), next to
+    # loops over list / set literals (the array-addition search turns settings.dynamic_params_for_other_modules off meanwhile)
+    dyn = ctx.sub('dynproj')
+    shapes = ("class Marker:\n    pass\n\n\ndef scale(shape):\n    return shape\n\n\ndef total(items):\n    return items\n\n\n"
+              "for item in [Marker()]:\n    item\nfor el in {Marker()}:\n    el\nlst = [Marker()]\nlst[0]\n")
+    with open(os.path.join(dyn, 'shapes.py'), 'w') as f:
+        f.write(shapes)
+    with open(os.path.join(dyn, 'caller.py'), 'w') as f:
+        f.write("import shapes\n\nshapes.scale(shapes.Marker())\nshapes.total([shapes.Marker()])\n")
+    sources.append(('dynparams:two-modules', shapes, os.path.join(dyn, 'shapes.py'),
+                    [['infer', 6, 11], ['infer', 10, 11], ['infer', 14, 4], ['infer', 16, 4], ['infer', 18, 3], ['goto', 6, 11],
+                     ['complete', 14, 8]], None))
     # queries that run with a temporary switch (find_references turns flow analysis off) followed by queries that
     # depend on the switch being on: the switch is restored, but is what was inferred meanwhile forgotten?
     flowrefs = ("class A:\n    attr = 1\nclass B:\n    attr = 2\ndef f():\n    if 1:\n        x = A()\n    else:\n        x = B()\n"
@@ -281,7 +293,7 @@ def run(ctx):
                 hist = hist + hist[:1]      # guarantees a repetition
             same_jobs.append({'src': src, 'path': path, 'mode': 'same', 'queries': [qs[i] for i in hist]})
             hist_index.append((si, hist))
-        if name.startswith('graph'):
+        if name.startswith(('graph', 'dynparams')):
             # the order dependence TLC finds for the design as coded: every ordered pair of statement queries
             inf = [i for i, q in enumerate(qs) if q[0] == 'infer' and q[1] < 9999]
             for a in inf:
@@ -347,6 +359,17 @@ def run(ctx):
         # model vs code (drift only)
         if model is not None:
             pass
+    # Switch.tla SwitchRestored on every real query: no setting / per-Script switch differs after a query
+    nsw = 0
+    for (jobs_, outs_) in ((fresh_jobs, fresh), (same_jobs, same)):
+        for job, obs in zip(jobs_, outs_):
+            for q, o in zip(job['queries'], obs):
+                nsw += 1
+                if len(o) > 4 and o[4]:
+                    ctx.violation('switch:not-restored:%s' % ','.join(o[4]), 'a setting / switch that the code turns temporarily '
+                                  'has another value after the query than before', {'query': q, 'source': job['src'][:3000],
+                                                                                   'changed': o[4]})
+    ctx.coverage['switch_observations'] = nsw
     ctx.coverage['observations'] = nobs
     ctx.coverage['failing_queries_in_histories'] = sum(1 for obs in same for (dg, oc, _sd, *_el) in obs if oc != 'ok')
     ctx.log('validating %d observation traces (%d observations)' % (len(traces), nobs))
